@@ -247,6 +247,26 @@ def decodeRune (s : ByteArray) (i : Nat) : Nat × Nat :=
     | _, _, _ => (0xFFFD, 1)
   else (0xFFFD, 1)
 
+/-- UTF-8 encoding of a code point; surrogates and out-of-range values encode U+FFFD -/
+def encodeRune (r : Int) : List UInt8 :=
+  let r : Nat := if r < 0 || r > 0x10FFFF || (0xD800 ≤ r && r ≤ 0xDFFF) then 0xFFFD else r.toNat
+  let b (n : Nat) : UInt8 := UInt8.ofNat n
+  if r < 0x80 then [b r]
+  else if r < 0x800 then [b (0xC0 ||| (r >>> 6)), b (0x80 ||| (r &&& 0x3F))]
+  else if r < 0x10000 then [b (0xE0 ||| (r >>> 12)), b (0x80 ||| ((r >>> 6) &&& 0x3F)), b (0x80 ||| (r &&& 0x3F))]
+  else [b (0xF0 ||| (r >>> 18)), b (0x80 ||| ((r >>> 12) &&& 0x3F)), b (0x80 ||| ((r >>> 6) &&& 0x3F)), b (0x80 ||| (r &&& 0x3F))]
+
+/-- all runes of a string, decoded like `range` does -/
+def runesOf (s : ByteArray) : Array Int := Id.run do
+  let mut out : Array Int := #[]
+  let mut pos := 0
+  for _ in [0:s.size] do
+    if pos ≥ s.size then break
+    let (r, w) := decodeRune s pos
+    out := out.push (Int.ofNat r)
+    pos := pos + w
+  return out
+
 /-! ### frames -/
 
 structure Frame where
@@ -481,9 +501,40 @@ def execSimple (p : Prog) (f : Fn) (fr : Frame) (ins : Instr) : M (Frame × Opti
   | .changetype => pure (fr, some (← op 0))
   | .changeinterface => pure (fr, some (← op 0))
   | .convert =>
-    match ← op 0, intTy p rty, intTy p (oty 0) with
-    | .int i, some (bits, sg), some _ => pure (fr, some (.int (wrapInt bits sg i)))
-    | _, _, _ => unsupported "convert: only integer to integer"
+    let x ← op 0
+    match x, p.under rty, p.under (oty 0) with
+    | .int i, .int bits sg, .int _ _ => pure (fr, some (.int (wrapInt bits sg i)))
+    | .int i, .str, .int _ _ => pure (fr, some (.str ⟨(encodeRune i).toArray⟩))
+    | .str s, .slice e, _ =>
+      match p.under e with
+      | .int 8 false =>
+        let o ← newObj (.agg (s.toList.toArray.map fun b => Val.int (Int.ofNat b.toNat)))
+        pure (fr, some (.slice o [] 0 s.size s.size))
+      | .int 32 true =>
+        let rs := runesOf s
+        let o ← newObj (.agg (rs.map Val.int))
+        pure (fr, some (.slice o [] 0 rs.size rs.size))
+      | _ => unsupported "convert: string to this slice type"
+    | _, .str, .slice e =>
+      let elems ← readSlice x
+      match p.under e with
+      | .int 8 false =>
+        let mut bs : ByteArray := ByteArray.empty
+        for v in elems do
+          match v with
+          | .int i => bs := bs.push (UInt8.ofNat i.toNat)
+          | _ => unsupported "convert: byte slice element"
+        pure (fr, some (.str bs))
+      | .int 32 true =>
+        let mut bs : ByteArray := ByteArray.empty
+        for v in elems do
+          match v with
+          | .int i => for b in encodeRune i do bs := bs.push b
+          | _ => unsupported "convert: rune slice element"
+        pure (fr, some (.str bs))
+      | _ => unsupported "convert: this slice type to string"
+    | .str s, .str, .str => pure (fr, some (.str s))
+    | _, _, _ => unsupported "convert: unsupported conversion"
   | .makeinterface ct => pure (fr, some (.iface ct (← op 0)))
   | .makeclosure fid =>
     let mut bs : Array Val := #[]
@@ -603,10 +654,17 @@ def execSimple (p : Prog) (f : Fn) (fr : Frame) (ins : Instr) : M (Frame × Opti
     let res : Option Val ← match x with
       | .nil => pure none
       | .iface d v =>
+        if !isIface && d == rtErrTid then pure none else
         if isIface then
           match p.impls.find? (fun (i, c, _) => i == t && c == d) with
           | some (_, _, b) => pure (if b then some x else none)
-          | none => if d == rtErrTid then unsupported "typeassert on a run-time error" else unsupported "typeassert: no impl record"
+          | none =>
+            if d == rtErrTid then
+              -- run-time errors implement `error` (and runtime.Error)
+              match p.under t with
+              | .iface ms => pure (if ms.all (fun m => m == "Error" || m == "RuntimeError") then some x else none)
+              | _ => pure none
+            else unsupported "typeassert: no impl record"
         else pure (if d == t then some v else none)
       | _ => unsupported "typeassert: operand"
     match res, commaOk with
@@ -632,10 +690,12 @@ def execSimple (p : Prog) (f : Fn) (fr : Frame) (ins : Instr) : M (Frame × Opti
           | _, .nil => pure none
           | _, .iface d v =>
             match p.under c with
-            | .iface _ =>
+            | .iface ms =>
               match p.impls.find? (fun (i, cc, _) => i == c && cc == d) with
               | some (_, _, b) => pure (if b then some x else none)
-              | none => unsupported "typeswitch: no impl record"
+              | none =>
+                if d == rtErrTid then pure (if ms.all (fun m => m == "Error" || m == "RuntimeError") then some x else none)
+                else unsupported "typeswitch: no impl record"
             | _ => pure (if d == c then some v else none)
           | _, _ => unsupported s!"typeswitch: operand {x.kindName}"
         match hit with
@@ -692,7 +752,7 @@ def execBuiltin (p : Prog) (f : Fn) (ins : Instr) (name : String) (args : Array 
     | _ => unsupported "cap: operand"
   | "append", #[s, t] =>
     let extra ← match t with
-      | .str _ => unsupported "append: string operand"
+      | .str b => pure (b.toList.toArray.map fun x => Val.int (Int.ofNat x.toNat))
       | _ => readSlice t
     if extra.size == 0 then pure s else
     let e ← elemOfSlice p rty
@@ -718,7 +778,7 @@ def execBuiltin (p : Prog) (f : Fn) (ins : Instr) (name : String) (args : Array 
       pure (.slice no [] 0 extra.size nc)
   | "copy", #[d, s] =>
     let src ← match s with
-      | .str _ => unsupported "copy: string operand"
+      | .str b => pure (b.toList.toArray.map fun x => Val.int (Int.ofNat x.toNat))
       | _ => readSlice s
     match ← sliceParts d with
     | none => pure (.int 0)
@@ -726,6 +786,15 @@ def execBuiltin (p : Prog) (f : Fn) (ins : Instr) (name : String) (args : Array 
       let n := min len src.size
       writeElems o pa off (src.extract 0 n)
       pure (.int (Int.ofNat n))
+  | "clear", #[x] =>
+    match ← sliceParts x with
+    | none => pure (.agg #[])
+    | some (o, pa, off, len, _) =>
+      let e ← match argTys[0]? with
+        | some t => elemOfSlice p t
+        | none => unsupported "clear: operand type"
+      writeElems o pa off (Array.replicate len (p.zero e))
+      pure (.agg #[])
   | "ssa:wrapnilchk", _ =>
     match (args[0]? : Option Val) with
     | some Val.nil => rtPanic "nil"
